@@ -77,3 +77,57 @@ package sqlite3
 //@   loop migration: invariant version: db.userVersion == ((rangeindex >= 0 && migrations[rangeindex].version > uv) ? migrations[rangeindex].version : uv)
 //@   loop migration: invariant kept: forall n string :: (old(db.tables)[n] ==> db.tables[n]) && (old(db.indexes)[n] ==> db.indexes[n])
 //@   loop migration: invariant legacy: (old(db.userVersion) == 0 && old(allV1(db)) && uv == 1 && (rangeindex < 0 || migrations[rangeindex].version <= 1)) ==> (db.mutations == old(db.mutations) + 1 && db.tables == old(db.tables) && db.indexes == old(db.indexes))
+
+// ---- C16: key tracker flag algebra. The tracker row of a key records which kinds of data the key holds
+// (1 simple, 2 prefix, 4 lease); ListKeys/RangeKeys read only the tracker. The SQL statements are assumed
+// to do what their text says; what is proved is which statement is issued with which flags.
+//@ func (s *SqliteKV) updateKeyTracker(ctx context.Context, tx *sql.Tx, key []byte, addFlags, removeFlags uint8) (err error)
+//@   arith bv
+//@   safety off
+//@   opt frame=off
+//@   opt puredyn=content
+//@   requires s != nil && tx != nil
+//@   ghost lastStmt *sql.Stmt = nil
+//@   ghost inserted bool = false
+//@   ghost deleted bool = false
+//@   ghost updated bool = false
+//@   ghost execFlags uint8 = 0
+//@   ghost found bool = false
+//@   ghost dbFlags uint8 = 0
+//@   ghost children int64 = 0
+//@   ghost counted bool = false
+//@   at after call StmtContext#*: ghost lastStmt := callarg2
+//@   at after call Scan#1: ghost found := callresult == nil
+//@   at after call Scan#1: ghost dbFlags := flags
+//@   at after call Scan#2: ghost children := count
+//@   at after call Scan#2: ghost counted := callresult == nil
+//@   at call Exec#1: assert insert-statement-with-the-added-flags: lastStmt == s.stmts.trackerInsert && cast(callarg1[2], "uint8") == addFlags && !inserted && !deleted && !updated
+//@   at call Exec#1: ghost inserted := true
+//@   at call Exec#2: assert delete-statement: lastStmt == s.stmts.trackerDelete && !inserted && !deleted && !updated
+//@   at call Exec#2: ghost deleted := true
+//@   at call Exec#3: assert update-statement: lastStmt == s.stmts.trackerUpdate && !inserted && !deleted && !updated
+//@   at call Exec#3: ghost execFlags := cast(callarg1[0], "uint8")
+//@   at call Exec#3: ghost updated := true
+//@   ensures local-untracked-key-without-new-data-stays-untracked: (err == nil && !found && addFlags == 0) ==> (!inserted && !deleted && !updated)
+//@   ensures local-untracked-key-with-new-data-is-inserted: (err == nil && !found && addFlags != 0) ==> (inserted && !deleted && !updated)
+//@   ensures local-prefix-flag-kept-while-children-remain: (err == nil && found && updated) ==> execFlags == ((dbFlags | addFlags) &^ ((removeFlags & 2 != 0 && children > 0) ? (removeFlags &^ 2) : removeFlags))
+//@   ensures local-tracker-deleted-exactly-when-no-kind-remains: (err == nil && found) ==> (!inserted && (deleted != updated) && (deleted == (((dbFlags | addFlags) &^ ((removeFlags & 2 != 0 && children > 0) ? (removeFlags &^ 2) : removeFlags)) == 0)))
+//@   ensures local-prefix-removal-counts-the-children-first: (err == nil && found && removeFlags & 2 != 0) ==> counted
+
+// ---- C17: RangeKeys picks the statement by the shape of the range and binds [low, high, high]
+// (the WHERE clauses themselves are proved equivalent to the circular interval by script sqlite_sql)
+//@ func bindUint64AsInt64(v uint64) (r int64)
+//@   arith bv
+//@   ensures same-bits: r == int64(v)
+
+//@ func (s *SqliteKV) RangeKeys(ctx context.Context, low uint64, high uint64) (r [][]byte, err error)
+//@   arith bv
+//@   safety off
+//@   opt frame=off
+//@   requires s != nil
+//@   ghost queried bool = false
+//@   at call QueryContext#1: assert no-wrap-statement-when-low-below-high: high > low ==> callarg0 == s.stmts.rangeKeysNorm
+//@   at call QueryContext#1: assert wrap-statement-otherwise: high <= low ==> callarg0 == s.stmts.rangeKeysWrap
+//@   at call QueryContext#1: assert binds-low-high-high: len(callarg2) == 3 && cast(callarg2[0], "int64") == int64(low) && cast(callarg2[1], "int64") == int64(high) && cast(callarg2[2], "int64") == int64(high)
+//@   at call QueryContext#1: ghost queried := true
+//@   ensures local-success-means-the-range-was-queried: err == nil ==> queried
